@@ -25,13 +25,14 @@ GEN = ['Extent', 'FieldIdx', 'Helper']
 OPS = ['C07', 'C03']
 RULE = ('cases: random supports on shapes 2..7, partitions into 1..5 segments (random labels = overlapping bounding boxes in half the cases, '
         'bands otherwise), chains of 1..3 masked Pupil planes with scalar/array amplitude and OPD, each plane described segmented or '
-        'monolithic, then propagate_dft with random per-axis sampling, oversampling 1..3, output shape and prop_shape; exact stream '
+        'monolithic, then propagate_dft with random per-axis sampling; plus 3..5 tilted segments (OPD ramps fitted by fit_tilt) propagated with prop_shape < shape so that the per-segment output fields overlap as chains, oversampling 1..3, output shape and prop_shape; exact stream '
         '(no propagation, Gaussian-integer data) and float stream. distinct = canonical (shapes, partition, attribute kinds, propagation '
         'setting) signature; non-trivial = some plane has at least two segments')
 TRUSTED = ['NumPy slicing/broadcasting in Plane.multiply and util.boundary (modelled by hand in Model/Plane.lean)',
            'np.dot / einsum in fourier.dft2 compute the sums of products (Model/Fourier.lean; C01 checks dft2 itself)',
            'np.exp(1j*t) = cos t + i sin t']
 UNPROVEN = [
+            'the tilted-segments class (fit_tilt metadata, prop_shape < shape, chain-overlapping output fields) is checked by the oracle on the real code only: per-field tilt shifts are outside Model/PropSeg.lean (C04/C02 model them); the merge step it exercises is covered by C06 reduce_total/reduce_pairwise_disjoint and C07 intensity_eq_normSq_field',
             'partitions containing a segment (or producing an intermediate field) with exactly one element (known finding KF-C03-one-pixel-segment)',
             'propagation with fitted tilt or an output mask is outside this model (C04, C02)']
 ASSUMPTIONS = ['every segment bounding box and every intermediate field has more than one element',
@@ -84,10 +85,50 @@ def gen_case(rng, mode, prop):
         return c
     raise RuntimeError('generator could not build a case')
 
+def gen_tilt(rng):
+    """K >= 3 segments (bands of blocks) with per-segment OPD ramps + pistons, fitted as tilt metadata (fit_tilt), propagated with
+    prop_shape < shape: one image-plane chip per segment, displaced by the segment's tilt. In 3/4 of the cases the spacing d
+    satisfies P/2 <= d < P (P = chip width), so the chips overlap as a CHAIN: neighbours overlap, second neighbours do not."""
+    K = int(rng.integers(3, 6))
+    bw = int(rng.integers(2, 4)); bh = int(rng.integers(2, 5))          # block size of a segment
+    axis = int(rng.integers(0, 2))                                       # segments laid out along rows (0) or columns (1)
+    gap = int(rng.integers(0, 2))
+    L = K * bw + (K - 1) * gap + int(rng.integers(0, 3)); Wd = bh + int(rng.integers(0, 3))
+    shape = (L, Wd) if axis == 0 else (Wd, L)
+    layers = []
+    for k in range(K):
+        m = np.zeros(shape, dtype=int)
+        a = k * (bw + gap)
+        if axis == 0: m[a:a + bw, 0:bh] = 1
+        else: m[0:bh, a:a + bw] = 1
+        layers.append(m)
+    os_ = int(rng.integers(1, 3))
+    pshape = int(rng.integers(2, 5)) if os_ == 2 else int(rng.integers(4, 9))
+    P = pshape * os_
+    chain = bool(rng.integers(0, 4))
+    d = float(rng.integers((P + 1) // 2, P)) if chain else float(rng.integers(1, 2 * P))
+    if rng.integers(0, 2): d += float(np.round(rng.uniform(-0.4, 0.4), 2))          # sub-pixel part
+    direction = [(0, 1), (1, 0), (1, 1), (1, -1)][int(rng.integers(0, 4))]
+    order = list(range(K))
+    if rng.integers(0, 3) == 0: order = [int(x) for x in rng.permutation(K)]       # chips not in segment order
+    shifts = [[(order[k] - (K - 1) / 2) * d * direction[0], (order[k] - (K - 1) / 2) * d * direction[1]] for k in range(K)]
+    oshape = int(np.ceil((K * d + P) / os_)) + int(rng.integers(0, 3))
+    dx = [1.0, 1.0]; du = [2.0, 2.0] if rng.integers(0, 2) else [1.0, 2.0]
+    fl = float(rng.integers(2, 9))
+    alpha = float(rng.uniform(0.03, 0.12))
+    wl = float(np.round(dx[0] * du[0] / (alpha * fl * os_), 4))
+    amp = [float(x) for x in np.round(rng.uniform(0.5, 1.5, shape[0] * shape[1]), 3)]
+    piston = [float(x) for x in np.round(rng.uniform(-0.4, 0.4, K) * wl, 6)]
+    return {'kind': 'tilt', 'mode': 'cf', 'shape': [int(shape[0]), int(shape[1])], 'layers': [[int(x) for x in m.ravel()] for m in layers],
+            'amp': amp, 'piston': piston, 'shifts': shifts, 'dx': dx, 'du': du, 'fl': fl, 'os': os_, 'wavelength': wl,
+            'oshape': oshape, 'pshape': pshape, 'chain': chain}
+
 def generate(rng, tier):
     n = {'quick': 150, 'thorough': 3000, 'search': 1000}[tier]
     out = []
     for k in range(n):
+        if k % 7 == 6:
+            out.append(gen_tilt(rng)); continue
         t = k % 5
         if t in (0, 1): out.append(gen_case(rng, 'gi', prop=False))
         elif t == 2: out.append(gen_case(rng, 'cf', prop=False))
@@ -95,13 +136,19 @@ def generate(rng, tier):
     return out
 
 def signature(c):
+    if c['kind'] == 'tilt':
+        return f"tilt {c['shape']} K={len(c['layers'])} os={c['os']} P={c['pshape']} out={c['oshape']} shifts={c['shifts']} du={c['du']}"
     s = ' | '.join(f"{p['mask']['shape']} k={len(p['mask']['layers'])} amp:{H7._akind(p['amp'])} opd:{H7._akind(p['opd'])} {vlib.jhash(p['mask'])[:6]}"
                    for p in c['seg'])
     return f"{c['mode']} {s} prop={c.get('prop')}"
 
-def nontrivial(c): return any(len(p['mask']['layers']) > 1 for p in c['seg'])
+def nontrivial(c):
+    if c['kind'] == 'tilt': return True
+    return any(len(p['mask']['layers']) > 1 for p in c['seg'])
 
 def tags(c):
+    if c['kind'] == 'tilt':
+        return ['tilted-segments', f"tilt:K={len(c['layers'])}", 'tilt:chain-spacing' if c['chain'] else 'tilt:random-spacing']
     t = [f"mode:{c['mode']}", f"planes:{len(c['seg'])}", 'propagated' if 'prop' in c else 'not-propagated']
     for p in c['seg']:
         t.append(f"segments:{len(p['mask']['layers'])}")
@@ -126,7 +173,38 @@ def _run(c, planes):
         o['field'] = H7.arr_out(w2.field, mode); o['intensity'] = H7.arr_out(w2.intensity, mode); o['nout'] = len(w2.data)
     return o
 
+def _chip(f):
+    return {'ext': [int(x) for x in f.extent], 're': [float(x) for x in f.data.real.ravel()], 'im': [float(x) for x in f.data.imag.ravel()]}
+
+def _run_tilt(c):
+    """segments with OPD ramps: (A) ramps fitted as tilt metadata, small propagation windows -> displaced chips;
+    (B) the same plane with the ramps left in the OPD, full propagation window -> one full-size field per segment"""
+    lentil = vlib.import_lentil()
+    shape = tuple(c['shape']); K = len(c['layers'])
+    mask = np.array(c['layers']).reshape((K,) + shape)
+    amp = np.array(c['amp']).reshape(shape) * mask.sum(axis=0)
+    r, q = lentil.helper.mesh(shape)
+    z, os_, du, dx = c['fl'], c['os'], c['du'], c['dx']
+    opd = np.zeros(shape)
+    for k in range(K):
+        sr, sc = c['shifts'][k]
+        # Plane.ptt_vector convention: opd = tx * (r*dx0) + ty * (-c*dx1); a ramp along rows moves the chip along rows
+        tx = sr * du[0] / (z * os_); ty = -sc * du[1] / (z * os_)
+        opd += mask[k] * (tx * r * dx[0] + ty * (-q) * dx[1] + c['piston'][k])
+    pupil = lentil.Pupil(amplitude=amp, mask=mask, opd=opd, pixelscale=tuple(dx), focal_length=z)
+    wA = lentil.Wavefront(c['wavelength']) * pupil.fit_tilt()
+    wA = lentil.propagate_dft(wA, pixelscale=tuple(du), shape=c['oshape'], prop_shape=c['pshape'], oversample=os_)
+    wB = lentil.Wavefront(c['wavelength']) * pupil
+    wB = lentil.propagate_dft(wB, pixelscale=tuple(du), shape=c['oshape'], oversample=os_)
+    return {'shape': [int(x) for x in wA.shape], 'chips': [_chip(f) for f in wA.data], 'full': [_chip(f) for f in wB.data],
+            'field': H7.arr_out(wA.field, 'cf'), 'intensity': H7.arr_out(wA.intensity, 'cf')}
+
 def impl(c):
+    if c['kind'] == 'tilt':
+        try:
+            return _run_tilt(c)
+        except (ValueError, IndexError, TypeError) as e:
+            return {'exc': type(e).__name__, 'msg': str(e)[:200]}
     try:
         return {'seg': _run(c, c['seg']), 'mono': _run(c, c['mono'])}
     except (ValueError, IndexError, TypeError) as e:
@@ -141,7 +219,9 @@ def _req(c, planes):
         r['prop'] = {'dx': vlib.fl(p['dx']), 'du': vlib.fl(p['du']), 'os': p['os'], 'shape': p['shape'], 'prop_shape': p['prop_shape'] or p['shape']}
     return r
 
-def requests(c, io): return [_req(c, c['seg']), _req(c, c['mono'])]
+def requests(c, io):
+    if c['kind'] == 'tilt': return []        # oracle-only class: propagation with tilt shifts is outside Model/PropSeg.lean
+    return [_req(c, c['seg']), _req(c, c['mono'])]
 
 def _scale(c):
     s = 1.0
@@ -163,6 +243,7 @@ def _cmp_pre(c, a, m, mode, sc):
     return None
 
 def compare(c, io, mo):
+    if c['kind'] == 'tilt': return None
     if 'exc' in io: return f"implementation raised {io['exc']}: {io.get('msg')}"
     mode = c['mode']; sc = _scale(c)
     for name, m in zip(('seg', 'mono'), mo):
@@ -180,8 +261,44 @@ def compare(c, io, mo):
     return None
 
 # ------------------------------------------------------------------------------------------ oracle (real code only)
+def _chip_arr(ch):
+    e = ch['ext']
+    return (np.array(ch['re']) + 1j * np.array(ch['im'])).reshape(e[1] - e[0] + 1, e[3] - e[2] + 1)
+
+def _oracle_tilt(c, io):
+    S0, S1 = io['shape']
+    tb = (-(S0 // 2), -(S0 // 2) + S0 - 1, -(S1 // 2), -(S1 // 2) + S1 - 1)
+    def place(chips):
+        out = np.zeros((S0, S1), dtype=complex)
+        for ch in chips:
+            e = ch['ext']; d = _chip_arr(ch)
+            for i in range(d.shape[0]):
+                for j in range(d.shape[1]):
+                    r, q = e[0] + i, e[2] + j
+                    if tb[0] <= r <= tb[1] and tb[2] <= q <= tb[3]: out[r - tb[0], q - tb[2]] += d[i, j]
+        return out
+    total = place(io['chips'])
+    sc = 1.0 + float(np.max(np.abs(total))) ** 2 + sum(float(np.max(np.abs(_chip_arr(ch)))) for ch in io['chips']) ** 2
+    tol = 1e-9 * sc
+    f = H7._np_arr(io['field']); I = H7._np_arr(io['intensity']).real
+    if np.max(np.abs(f - total)) > tol: return 'Wavefront.field is not the coherent sum of the per-segment fields'
+    if np.max(np.abs(I - H7._nsq(total))) > tol:
+        return (f'contributions of different segments landing on the same samples were not added coherently: '
+                f'intensity != |sum of fields|^2 (max {np.max(np.abs(I - H7._nsq(total))):.3g}; {len(io["chips"])} fields, extents {[ch["ext"] for ch in io["chips"]]})')
+    # cropped sub-arrays carrying offsets (tilt as metadata) vs the whole arrays (tilt left in the OPD), segment by segment
+    if len(io['chips']) == len(io['full']):
+        for k, (ch, fu) in enumerate(zip(io['chips'], io['full'])):
+            e, E = ch['ext'], fu['ext']
+            F = _chip_arr(fu)
+            if not (E[0] <= e[0] and e[1] <= E[1] and E[2] <= e[2] and e[3] <= E[3]): continue
+            crop = F[e[0] - E[0]:e[1] - E[0] + 1, e[2] - E[2]:e[3] - E[2] + 1]
+            if np.max(np.abs(crop - _chip_arr(ch))) > 1e-7 * sc:
+                return f'segment {k}: the windowed field with fitted tilt differs from the same window of the full propagation (max {np.max(np.abs(crop - _chip_arr(ch))):.3g})'
+    return None
+
 def oracle(c, io):
     if 'exc' in io: return f"raised {io['exc']}: {io.get('msg')}"
+    if c['kind'] == 'tilt': return _oracle_tilt(c, io)
     mode = c['mode']; sc = _scale(c)
     s, m = io['seg'], io['mono']
     for key in ('field', 'intensity'):
@@ -204,6 +321,7 @@ def oracle(c, io):
     return None
 
 def shrink(c):
+    if c['kind'] == 'tilt': return
     if len(c['seg']) > 1:
         for i in range(len(c['seg'])):
             d = dict(c); d['seg'] = c['seg'][:i] + c['seg'][i + 1:]; d['mono'] = c['mono'][:i] + c['mono'][i + 1:]
